@@ -1,14 +1,14 @@
 package harness
 
 import (
-	"github.com/gorilla/websocket"
-	"encoding/json"
-	"net/url"
-	"io"
 	"bufio"
 	"bytes"
 	"context"
+	"encoding/json"
 	"fmt"
+	"github.com/gorilla/websocket"
+	"io"
+	"net/url"
 	"sort"
 	"strconv"
 	"strings"
@@ -330,10 +330,10 @@ func c04Monitor(c *Ctx, port int, path string) (subjects []string, err error) {
 type c04Run struct {
 	wsToken string
 	monPort int
-	c   *Ctx
-	k   *c04Case
-	web *webEnv
-	cl  *client.Client
+	c       *Ctx
+	k       *c04Case
+	web     *webEnv
+	cl      *client.Client
 }
 
 var c04HTTPIfaces = []string{"rest-list", "rest-get", "rest-source", "ui-message", "ui-source", "client-list", "client-get", "client-source", "ws1-monitor", "ws2-monitor"}
